@@ -229,8 +229,12 @@ class SamplePosterior(Contract):
         for rs in ("smc", "emcee_smc"):
             for given in (None, "importance", rs):
                 for ck, sc in (("defaults", 1), ("defaults", 0), ("explicit", 1)):
-                    out.append({"sampler": given or "importance", "omit_sampler": given is None, "resumed": rs, "effective": rs, "ck": ck, "rng": 0, "file_flow": 1, "file_ckpt": 1,
-                                "file_config": 1, "save_config": sc, "file_config_sampler": rs})
+                    for fresh_start in (0, 1):
+                        for ov in (0, 1):
+                            if (fresh_start or ov) and not (given is None and ck == "defaults" and sc == 0):
+                                continue
+                            out.append({"sampler": given or "importance", "omit_sampler": given is None, "resumed": rs, "effective": rs, "ck": ck, "rng": 0, "file_flow": 1, "file_ckpt": 1,
+                                        "file_config": 1, "save_config": sc, "file_config_sampler": rs, "fresh_start": fresh_start, "override_every": ov})
         out += [{"sampler": "smc", "ck": "explicit", "rng": 0, "file_flow": 0, "file_ckpt": 0, "file_config": 1, "save_config": 0},
                 {"sampler": "smc", "ck": "explicit", "rng": 0, "file_flow": 1, "file_ckpt": 1, "file_config": 1, "save_config": 0, "file_config_sampler": "smc"}]
         return out
@@ -248,7 +252,10 @@ class SamplePosterior(Contract):
         if shape.get("resumed"):
             a.f["_resume_sampler_type"] = Str(shape["resumed"])
             a.f["_resume_from_default"] = Sym(z3.Const("stored_checkpoint_bytes", Misc), "bytes")
-            a.f["_resume_overrides"] = PyDict({})
+            # resume_kwargs given to resume_from_file, e.g. another checkpoint cadence for the continued run
+            a.f["_resume_overrides"] = PyDict({"checkpoint_every": IV(z3.Int("resume_override_every"))} if shape.get("override_every") else {})
+            if shape.get("fresh_start"):
+                kw["resume_from"] = NONE          # the caller explicitly asks the sampler to start afresh
             a.f["_resume_n_samples"] = IV(z3.Int("stored_n_samples"))
             for k in ("_resume_sampler_type", "_resume_from_default", "_resume_overrides", "_resume_n_samples"):
                 a.absent.discard(k)
@@ -325,13 +332,15 @@ class SamplePosterior(Contract):
         if sh["ck"] != "none":
             snap = runs[0][3].get(skey(g["path"]), {})
             supports = "checkpoint_file_path" in spos + skwonly
-            p.prove(z3.BoolVal("flow" in snap), f"{q}:C12:the flow is in the checkpoint file before sampling starts {tag}")
+            p.prove(z3.BoolVal("flow" in snap), f"{q}:C12:C14:the flow is in the checkpoint file before sampling starts (a checkpoint written by an interrupted run is never in a file without its proposal) {tag}")
             if sh["save_config"]:
                 p.prove(z3.BoolVal("aspire_config" in snap), f"{q}:C12:the configuration is in the checkpoint file before sampling starts {tag}")
             if supports:
                 p.prove(z3.BoolVal(run_kw.get("checkpoint_file_path") is g["path"]), f"{q}:C12:the sampler is told the checkpoint file {tag}")
                 ev = run_kw.get("checkpoint_every")
                 want = z3.Int("checkpoint_every") if sh["ck"] == "explicit" else z3.Int("defaults_every")
+                if sh.get("override_every") and not sh.get("fresh_start"):
+                    want = z3.Int("resume_override_every")          # resume_kwargs of resume_from_file win over the defaults of the rebuilt instance
                 p.prove(to_int(ev) == want if isinstance(ev, Z) else z3.BoolVal(False), f"{q}:C12:the sampler is told the requested cadence {tag}")
             else:
                 p.prove(z3.BoolVal("checkpoint_file_path" not in run_kw), f"{q}:C12:samplers without checkpoint support are not handed checkpoint keywords {tag}")
@@ -347,6 +356,12 @@ class SamplePosterior(Contract):
                 p.prove(z3.BoolVal(isinstance(st, Str) and st.v == eff), f"{q}:C14:C12:the stored configuration names the sampler type that ran (the resume route needs it) {tag}")
         else:
             p.prove(z3.BoolVal("checkpoint_file_path" not in run_kw), f"{q}:C12:no checkpoint keywords without a checkpoint path {tag}")
+        if sh.get("resumed"):
+            rf = run_kw.get("resume_from")
+            if sh.get("fresh_start"):
+                p.prove(z3.BoolVal(rf is not None and isinstance(rf, NoneV)), f"{q}:C14:C11:an explicit resume_from=None (start afresh) is honoured: the stored checkpoint is not slipped in {tag}")
+            else:
+                p.prove(z3.BoolVal(rf is a.f["_resume_from_default"]), f"{q}:C11:C12:a rebuilt instance continues from the checkpoint it was primed with {tag}")
         p.prove(z3.BoolVal(a.f.get("_sampler") is s), f"{q}:C17:the instance keeps the sampler whose evaluation counter it reports {tag}")
         res = p.ghost.get("sampler_result")
         if res is not None and isinstance(r, Obj):
@@ -367,8 +382,11 @@ class Fit(Contract):
     def shapes(self):
         # `last`: the sampler type of the instance's last sampling call (None: the instance has not sampled; an instance rebuilt by resume_from_file
         # carries the type stored in the file, see ResumeFromFile)
-        return [{"ck": ck, "file_flow": ff, "file_ckpt": fc, "overwrite": ow, "file_config": cfg, "last": last} for ck in ("none", "explicit", "defaults") for ff in (0, 1) for fc in (0, 1)
-                for ow in (0, 1) for cfg in (0, 1) for last in (None, "smc") if not (ck == "none" and (ff or fc or cfg or ow)) and not (fc and not ff)]
+        out = [{"ck": ck, "file_flow": ff, "file_ckpt": fc, "overwrite": ow, "file_config": cfg, "last": last} for ck in ("none", "explicit", "defaults") for ff in (0, 1) for fc in (0, 1)
+               for ow in (0, 1) for cfg in (0, 1) for last in (None, "smc") if not (ck == "none" and (ff or fc or cfg or ow)) and not (fc and not ff)]
+        # an explicit checkpoint path given inside an auto_checkpoint context that targets *another* file
+        out += [{"ck": "explicit", "file_flow": ff, "file_ckpt": 0, "overwrite": 0, "file_config": 0, "last": None, "other_defaults": 1} for ff in (0, 1)]
+        return out
 
     def setup(self, I, shape):
         flow = flow_obj("before_fit")
@@ -393,6 +411,13 @@ class Fit(Contract):
         if shape["ck"] == "explicit":
             kw["checkpoint_path"] = path
             kw["overwrite"] = B(bool(shape["overwrite"]))
+            if shape.get("other_defaults"):
+                od = PyDict({"path": Str("context_file.h5"), "every": IV(1), "save_config": B(z3.Bool("defaults_save_config")), "save_flow": B(z3.Bool("defaults_save_flow")),
+                             "saved_config": B(False), "saved_flow": B(False)})
+                a.f["_checkpoint_defaults"] = od
+                a.absent.discard("_checkpoint_defaults")
+                g["other_defaults"] = od
+                fs(I)[skey(Str("context_file.h5"))] = mk_group("/")          # the context's own file: nothing written to it yet
         elif shape["ck"] == "defaults":
             sc0, sf0 = z3.Bool("saved_config0"), z3.Bool("saved_flow0")
             I.path.assume(z3.Implies(sf0, z3.BoolVal(bool(shape["file_flow"]))))
@@ -426,6 +451,13 @@ class Fit(Contract):
         if "checkpoint" in mem and "flow" in mem:
             p.prove(mem["flow"].f["ver"].e == mem["checkpoint"].f["flow_ver"].e,
                     f"{q}:C14:J2 no checkpoint weighted under another proposal remains next to the stored flow [stale checkpoint after refit] {tag}")
+        if "other_defaults" in g:
+            # the flags of the enclosing context describe the context's own file: fitting into another file must not mark that file as holding the flow / configuration
+            od = g["other_defaults"].d
+            cmem = fs(I)[skey(Str("context_file.h5"))].f["members"].d
+            p.prove(z3.Implies(I.truth(od["saved_flow"]), z3.BoolVal("flow" in cmem)), f"{q}:C12:C14:context flag saved_flow implies the flow is in the context's file (fit wrote to another file) {tag}")
+            # (saved_config is deliberately not constrained here: fit does set it after writing the configuration to the other file, but sample_posterior
+            #  rewrites the configuration before sampling whatever the flag says, so no checkpoint is ever stored next to a missing or stale configuration)
         if "checkpoint" in mem and "aspire_config" in mem:
             st = mem["aspire_config"].f.get("sampler_type")
             who = "config rewritten by an instance that has not sampled" if not sh["last"] else f"instance last sampled with {sh['last']}"
@@ -572,7 +604,10 @@ class MiniPCNSample(Contract):
             s.f["sampler"] = stale
         else:
             s.absent.add("sampler")
-        return Pre(s, [IV(n)], kw, ghost={"s": s, "rng": rng, "shape": shape, "n": n})
+        return Pre(s, [IV(n)], kw, ghost={"s": s, "rng": rng, "shape": shape, "n": n, "evals0": s.f["n_likelihood_evaluations"]})
+
+    # a sampler built inside sample() (e.g. for the evidence estimate) is executed, not replaced by its caller-side model: its likelihood calls count
+    force_inline = ("samplers.importance:ImportanceSampler.sample",)
 
     def post(self, I, pre, r):
         from contracts.samplers import aligned_goals
@@ -582,6 +617,13 @@ class MiniPCNSample(Contract):
         if not isinstance(r, Obj):
             p.prove(z3.BoolVal(False), f"{q}:returns Samples")
             return
+        # C17: the counter reports the points the user's likelihood was asked to evaluate during this call - each exactly once
+        asked = z3.IntVal(0)
+        for e in p.events:
+            if e[0] == "user_log_likelihood":
+                asked = asked + e[2].n
+        p.prove(to_int(s.f["n_likelihood_evaluations"]) == to_int(g["evals0"]) + asked,
+                f"{q}:C17:the evaluation counter grows by exactly the number of points handed to the user's likelihood during the call (no point counted twice, none missed)")
         for nm, gl in aligned_goals(q, r, fields=("log_prior", "log_likelihood")):
             p.prove(gl, nm)
         cons = [e for e in p.events if e[0] == "kernel.construct"]
